@@ -40,3 +40,24 @@ package listener
 //@   modifies s.sniffing, s.bufferRead, s.bufferSize
 //@   ensures snifInv(s) && s.sniffing == snif && s.bufferRead == 0 && s.bufferSize == len(out(&s.buffer))
 //@   ensures snifPos(s) == 0 || len(out(&s.buffer)) == 0
+
+// ---- prefix matcher: the decision is taken on the first maxDepth bytes of the stream -----------------------
+// io.ReadFull: on success exactly len(buf) bytes are consumed and stored; it fails iff fewer were available
+//@ extern func io.ReadFull(r io.Reader, buf []byte) (n int, err error)
+//@   modifies buf[:], ghostInt(r, "rpos")
+//@   copies buf, ghostBytes(r, "src")[ghostInt(r, "rpos"):], n
+//@   ensures 0 <= n && n <= len(buf) && (err == nil) == (n == len(buf)) && ghostInt(r, "rpos") == old(ghostInt(r, "rpos")) + n
+//@   ensures old(ghostInt(r, "rpos")) >= 0 && old(ghostInt(r, "rpos")) <= 1<<50
+// the recursive, map-based tree walk is outside the generator's reach: assumed pure
+//@ func (n *ptNode) match(b []byte, prefix bool) (ok bool)
+//@   trusted
+//@   modifies
+
+//@ func (t *patriciaTree) matchPrefix(r io.Reader) (ok bool)
+//@   requires t != nil && t.root != nil && 0 <= t.maxDepth && t.maxDepth <= 4096 && r != nil
+//@   modifies ghostInt(r, "rpos")
+//@   local buf []byte
+//@   local n int
+//@   assert[call:match] len(buf) == t.maxDepth && 0 <= n && n <= t.maxDepth && forall(i, 0, n, buf[i] == ghostBytes(r, "src")[old(ghostInt(r, "rpos")) + i])
+//@   assert[call:match] ghostInt(r, "rpos") == old(ghostInt(r, "rpos")) + n
+//@   ensures ghostInt(r, "rpos") <= old(ghostInt(r, "rpos")) + t.maxDepth
